@@ -15,6 +15,19 @@ CHECKS = {
             "so model checking plus complete conformance is the right level.",
             "Trusted: the transcription of STIX 2.1 Appendix A into spec/Confidence.tla; label spellings as documented by the library.",
             "DESIGN.md §3.12"),
+    "C15": ("timestamps", "TLA+ integer-arithmetic spec of timestamp text; TLC exhaustive (all us values, all days in thorough); table replay + trace validation",
+            "TLC checks on spec/Timestamps.tla that the library's formatting rule satisfies canonical shape / digit count / same-instant-truncated / fixed point / order "
+            "for every boundary input (thorough: all 10^6 microsecond values x 6 precision settings and all 3.65M calendar days). The implementation is bound by replaying "
+            "the TLC-computed table through every input form and by validating thousands of recorded executions (datetimes, dates, text spellings, STIXdatetime, object properties) "
+            "against the property predicates evaluated by TLC.",
+            "Trusted: proleptic Gregorian arithmetic in the spec (checked invertible by TLC); Python datetime only to build inputs. Outside the replayed table conformance is sampling.",
+            "DESIGN.md §3.9"),
+    "C05": ("versioning", "TLA+ state machine of new_version/revoke with the clock as environment-chosen argument; TLC exhaustive; case-table replay + trace validation",
+            "TLC explores every clock reading (earlier/equal/sub-precision/later) x operation x change set on chains and branches of versions of objects and dicts of both spec versions and "
+            "checks chain monotonicity of serialized times, identity preservation, exact changes, revoked-terminal, immutability. Every one-step case TLC computes is replayed on real objects "
+            "with the clock substituted, and long random histories over all versionable types are validated line by line by the trace spec.",
+            "Trusted: clock substitution through stix2.versioning.get_timestamp; projection in harness/impl_versioning.py. Times relative to a base instant within 2^31 us.",
+            "DESIGN.md §3.2"),
 }
 
 NOT_YET = {}
